@@ -26,7 +26,7 @@ REAL = ['TotalDepth.LIS.core.File.FileWrite / PhysRec.PhysRecWrite / TifMarker.T
         'TotalDepth.DeTif.strip_tif']
 STUB = ['file objects -> SimFile (in-memory, access-logged)', 'input files -> independent LIS-79 producer worlds/lis_phys.py']
 ASSUMPTIONS = [
-    'the checksum algorithm of LIS-79 is not available offline: presence and length of the checksum are compared, its value is not',
+    'no text of LIS-79 is available offline: the reference for the VALUE of the checksum trailer is the form that reproduces all 110 checksum trailers of the field file example_data/LIS/data/DILLSON-1_WELL_LOGS_FILE-049.LIS (worlds/lis_phys.lis_checksum; the self-test re-checks that)',
     'record-number trailer values are compared only for "increments by one per physical record"',
     'at the end of a logical record a read may return None (end of record) or run on into the next record; the statement does not '
     'choose, both are accepted and stamped payloads attribute the bytes; size-0 reads/skips are not generated (unattributable)',
@@ -35,7 +35,7 @@ ASSUMPTIONS = [
     'reversed TIF files whose first next-word is 0x100 or 0x10000 are excluded (two byte orders indistinguishable)',
     'no stored-byte fault: the statement is about files written conformantly',
 ]
-PROBES = ['two_readers_interleaved', 'record_number_wraps', 'read_ends_at_pr_boundary', 'read_ends_at_record_boundary', 'skip_across_ge2_pr', 'seek_back_after_eof', 'seek_partial_seek_same',
+PROBES = ['checksum_boundary_value', 'two_readers_interleaved', 'record_number_wraps', 'read_ends_at_pr_boundary', 'read_ends_at_record_boundary', 'skip_across_ge2_pr', 'seek_back_after_eof', 'seek_partial_seek_same',
           'payload_lt_one_pr', 'pr_with_1_byte', 'tif_reversed', 'tif_normal', 'none_at_record_end', 'run_on_into_next', 'eof_reached',
           'foreign_chunking', 'written_reread', 'strip_tif', 'seek_cur', 'tell_checked', 'all_trailers']
 
@@ -81,6 +81,8 @@ def gen_ops(rng, model):
 def generate(seed, tier):
     rng = seeds.Rng(seed)
     model = L.gen_model(rng)
+    if model['chk'] and not model['rec'] and rng.chance(0.15):
+        L.shape_checksum(model)          # physical records whose checksum is all ones, zero or next to them
     sc = {'world': 'lis_phys', 'model': model, 'ops': gen_ops(rng, model), 'reread_written': rng.chance(0.5)}
     if rng.chance(0.2):
         # a second reader on another file is alive at the same time: [k, -1] = before operation k it reads its next whole record
@@ -111,19 +113,33 @@ def drive_writer(res, model):
         res.violation('write-exception', f'{type(err).__name__}: {err}', exc=type(err).__name__, tif=greedy['tif'])
         return None, lay
     got = out.getvalue()
-    res.ev('written', len(got), seeds.digest(L.masked(got, lay['mask']) if len(got) == len(exp) else got))
+    mask = list(lay['mask']) + [(p_, 2) for p_ in lay['chk_pos']]
+    res.ev('written', len(got), seeds.digest(L.masked(got, mask) if len(got) == len(exp) else got))
     want_pos = [r['pos'] for r in lay['records']]
     if positions != want_pos:
         res.violation('write-positions', f'write() returned {positions[:8]}, LIS-79 layout puts the records at {want_pos[:8]}',
                       tif=greedy['tif'])
-    if len(got) != len(exp) or L.masked(got, lay['mask']) != L.masked(exp, lay['mask']):
-        k = next((i for i, (a, b) in enumerate(zip(L.masked(got, lay['mask']) + b'\x00' * 8, L.masked(exp, lay['mask']) + b'\x01' * 8)) if a != b), None)
+    if len(got) != len(exp) or L.masked(got, mask) != L.masked(exp, mask):
+        k = next((i for i, (a, b) in enumerate(zip(L.masked(got, mask) + b'\x00' * 8, L.masked(exp, mask) + b'\x01' * 8)) if a != b), None)
         res.violation('write-layout', f'written file ({len(got)} bytes) differs from the LIS-79 layout ({len(exp)} bytes) at byte {k}',
                       tif=greedy['tif'], rec=model['rec'], file=model['file'] is not None, chk=model['chk'])
-    elif model['rec'] and lay['recnum_pos']:
-        nums = [int.from_bytes(got[p:p + 2], 'big') for p in lay['recnum_pos']]
-        if any((b - a) & 0xffff != 1 for a, b in zip(nums, nums[1:])):
-            res.violation('write-recnum', f'record numbers {nums[:10]} do not increase by one per physical record')
+    else:
+        if model['rec'] and lay['recnum_pos']:
+            nums = [int.from_bytes(got[p:p + 2], 'big') for p in lay['recnum_pos']]
+            if any((b - a) & 0xffff != 1 for a, b in zip(nums, nums[1:])):
+                res.violation('write-recnum', f'record numbers {nums[:10]} do not increase by one per physical record')
+        # the value of the checksum trailer; the record number before it is whatever the writer chose, so the reference is
+        # computed over the bytes the writer produced
+        for p_ in lay['chk_pos']:
+            prh = max(pr['prh'] for r_ in lay['records'] for pr in r_['prs'] if pr['prh'] <= p_)
+            want = L.lis_checksum(got[prh:p_])
+            have = int.from_bytes(got[p_:p_ + 2], 'big')
+            if want in (0, 0xffff):
+                res.probe('checksum_boundary_value')
+            if have != want:
+                res.violation('write-checksum', f'physical record at {prh}: checksum trailer 0x{have:04x}, the checksum of its {p_ - prh} bytes is 0x{want:04x}',
+                              swapped=have == ((want & 0xff) << 8 | want >> 8), boundary=want in (0, 0xffff), tif=greedy['tif'])
+                break
     return got, lay
 
 
